@@ -95,15 +95,15 @@ type delivery struct {
 }
 
 type client struct {
-	id      int
-	prefix  string
-	payload []byte
-	short   bool // sends fewer bytes than the prefix length, then closes
+	id          int
+	prefix      string
+	payload     []byte
+	short       bool   // sends fewer bytes than the prefix length, then closes
 	stall       bool   // sends part of the prefix and keeps the connection open
 	expectRoute string // live listener registered for the prefix when the connection arrived (cleared if the application closes it later)
-	settled bool // the process was quiescent after this connection arrived and before the mux was stopped
-	pair    *simnet.Pair
-	sent    []byte
+	settled     bool   // the process was quiescent after this connection arrived and before the mux was stopped
+	pair        *simnet.Pair
+	sent        []byte
 }
 
 // readAllSmall reads to EOF with a cycle of (possibly tiny) buffer sizes.
